@@ -42,7 +42,7 @@ type concPlan struct {
 // runConc is the shared concurrent scenario of C04/C05: generate programs, run them under the seeded scheduler,
 // then judge the history.
 func runConc(src sim.Source, o Opts, res *Result, plan concPlan) {
-	cw := buildConcWorld(src, res, 0)
+	cw := buildConcWorld(src, res, 0, true)
 	if cw == nil {
 		return
 	}
@@ -195,7 +195,7 @@ func runConc(src sim.Source, o Opts, res *Result, plan concPlan) {
 			})
 		}
 	}
-	out := s.Run()
+	out := cw.runSched(s)
 	res.Leaked = res.Leaked || s.Leaked()
 	res.Steps = s.Steps
 	res.Hash = s.Hash()
